@@ -1314,6 +1314,20 @@ func mismatchShard(tier string) mc.Shard {
 						if _, err := DecodeSlot(enc, k, exact, a.New()); err == nil {
 							fails = append(fails, mc.Fail{Clause: "C08.mapping-mismatch", Detail: fmt.Sprintf("decoding the encoding of a %s sketch with the supplied mapping %s succeeded (exact=%v)", b, a, exact)})
 						}
+						// the mismatching mapping is not the last one of the stream: the encoding of
+						// a sketch of the receiver's own mapping follows it
+						own := NewSkSlot(a.New(), k, exact)
+						own.Q().Add(2)
+						cat := append(append([]byte{}, enc...), encodeOf(own.Q(), false)...)
+						recv2 := NewSkSlot(a.New(), k, exact)
+						recv2.Q().Add(1)
+						res.Evaluations += 2
+						if err := recv2.Q().DecodeAndMergeWith(cat); err == nil {
+							fails = append(fails, mc.Fail{Clause: "C08.mapping-mismatch", Detail: fmt.Sprintf("a %s receiver accepted the encoding of a %s sketch followed by the encoding of a %s sketch (exact=%v)", a, b, a, exact)})
+						}
+						if _, err := DecodeSlot(cat, k, exact, nil); err == nil {
+							fails = append(fails, mc.Fail{Clause: "C08.mapping-mismatch", Detail: fmt.Sprintf("a stream holding the encoding of a %s sketch followed by that of a %s sketch decoded without error (exact=%v)", b, a, exact)})
+						}
 					}
 				}
 			}
